@@ -31,8 +31,8 @@ var Properties = map[string][]string{
 	"C02": {"C02.a"},
 	"C03": {"C03.a"},
 	"C05": {"C02.a", "C05.b", "C05.c", "C01.d"},
-	"C06": {"C06.a", "C05.c", "C06.c"},
-	"C08": {"C08.a"},
+	"C06": {"C06.a", "C05.c", "C06.c", "C06.e"},
+	"C08": {"C08.a", "C08.b"},
 	"C11": {"C11.c", "C01.d"},
 	"C12": {"C12.b"},
 	"C13": {"C13.a", "C13.c"},
